@@ -40,12 +40,19 @@ type State struct {
 	alloc Term
 	pc    Term
 	defers []deferEntry
+	dirty  map[string]bool // components written by an effect-summarised call before this generator ever read them
 }
 
 func (s *State) clone() *State {
 	n := &State{heap: make(map[string]Term, len(s.heap)), ep: s.ep, alloc: s.alloc, pc: s.pc, defers: s.defers}
 	for k, v := range s.heap {
 		n.heap[k] = v
+	}
+	if len(s.dirty) > 0 {
+		n.dirty = make(map[string]bool, len(s.dirty))
+		for k := range s.dirty {
+			n.dirty[k] = true
+		}
 	}
 	return n
 }
@@ -84,6 +91,7 @@ type VC struct {
 	callOrd    map[ssa.Instruction]int
 	callByName map[string]ssa.Instruction
 	callOrdQ   map[ssa.Instruction]string
+	curCall    *ssa.CallCommon
 	curClause  Expr
 	curBlock   *ssa.BasicBlock
 	infeasible map[edge]bool
@@ -239,6 +247,13 @@ func (vc *VC) heapGet(st *State, comp, sort string) Term {
 		}
 		return t
 	}
+	if st.dirty[comp] {
+		// first read after an effect-summarised call wrote this component: an unknown version
+		delete(st.dirty, comp)
+		n := vc.heapHavoc(st, comp)
+		vc.heapTypingAxioms(st, comp)
+		return n
+	}
 	t := vc.compBaseName(comp, st.ep)
 	st.heap[comp] = t
 	if !strings.ContainsAny(t, " (") && !vc.declared["typed:"+t] {
@@ -278,6 +293,7 @@ func (vc *VC) havocAll(st *State) {
 	epochCounter++
 	st.ep = &epoch{id: epochCounter}
 	st.heap = map[string]Term{}
+	st.dirty = nil
 	vc.clobberMaps("")
 	vc.topHit = true
 	na := vc.fresh("alloc")
